@@ -17,7 +17,7 @@ MANIFEST = {
                  "integer cursor model",
     "text": "Every in-range sequence over {read(n), read(), seek(k), seek(d,1), tell, len} to depth 3 (thorough 4) on one "
             "handle and depth 2 (3) interleaved over two handles, without state merging, plus a BFS closure over the model "
-            "states (position, offsets-known, end-reached, last op) at any depth, for 14 format fixtures (incl. a DTR stack of two time-overlapping frame sets, a DCD whose header frame count disagrees with the file, and a 10-atom mdcrd) with and without "
+            "states (position, offsets-known, end-reached, last op) at any depth, for 16 format fixtures (incl. a DCD without unit cell, a TRR with forces and no velocities, a DTR stack of two time-overlapping frame sets, a DCD whose header frame count disagrees with the file, and a 10-atom mdcrd) with and without "
             "atom_indices; every step is executed on the real object and compared with the model and with the frames of a "
             "full read. Right level: the property is a statement about all histories of a tiny state machine.",
     "note": "Bounded: N=5 frames, 4 (xtc: 4 and 12) atoms; out-of-range operations are not issued; the full read is the "
@@ -28,16 +28,19 @@ MANIFEST = {
 from vlib import explore
 
 N = 5
-FORMATS = ["h5", "xtc", "xtc12", "trr", "dcd", "dcdhdr", "nc", "mdcrd", "mdcrd10", "xyz", "lammpstrj", "dtr", "stk", "arc"]
+FORMATS = ["h5", "xtc", "xtc12", "trr", "trrforces", "dcd", "dcdhdr", "dcdnocell", "nc", "mdcrd", "mdcrd10", "xyz", "lammpstrj", "dtr", "stk", "arc"]
 # stk: two DTR frame sets overlapping in time (a restart from a checkpoint): times 1,3,5 and 5,7,9 -- the stack keeps
 # 1,3 of the first and all of the second, the dropped frame of the first set carries other coordinates.
 # dcdhdr: a DCD whose header frame count (3) disagrees with the file (5 frames) -- an interrupted / appended run;
 # mdtraj documents that it then goes by the file size.  mdcrd10: 10 atoms = exactly three full 10-field lines per frame.
 NATOMS = {"xtc12": 12, "mdcrd10": 10}
-EXT = {"xtc12": "xtc", "mdcrd10": "mdcrd", "dcdhdr": "dcd"}
+EXT = {"xtc12": "xtc", "mdcrd10": "mdcrd", "dcdhdr": "dcd", "dcdnocell": "dcd", "trrforces": "trr"}
+# dcdnocell: a DCD written without unit cell (no extra block per frame); trrforces: a TRR whose frames carry forces but no
+# velocities (GROMACS nstfout > 0, nstvout = 0) -- frame skipping must agree with frame reading for these layouts too
 NO_LEN = {"mdcrd", "mdcrd10", "lammpstrj", "arc"}   # __len__ raises NotImplementedError: "len, where offered"
 NO_SEEK = {"arc"}          # seek/tell/len raise NotImplementedError: not a seekable format; read ops only
 _FIX = {}
+SKIPPED = set()
 
 
 def _traj(n_atoms, seed):
@@ -86,6 +89,26 @@ def make_fixtures(ctx):
             continue
         natoms = NATOMS.get(fmt, 4)
         p = os.path.join(d, "c18_%s.%s" % (fmt, EXT.get(fmt, fmt)))
+        if fmt == "dcdnocell":
+            t = _traj(natoms, ctx.seed)
+            t.unitcell_vectors = None
+            t.save(p)
+            fx[fmt] = p
+            continue
+        if fmt == "trrforces":
+            import mdtraj as md
+            t = _traj(natoms, ctx.seed)
+            try:
+                with md.open(p, "w") as fh:
+                    fh._write(np.ascontiguousarray(t.xyz), np.asarray(t.time, np.float32), np.arange(N, dtype=np.int32),
+                              np.ascontiguousarray(t.unitcell_vectors), np.zeros(N, np.float32),
+                              forces=np.ascontiguousarray(t.xyz[::-1] * 3.0))
+                fx[fmt] = p
+            except Exception as e:  # noqa  (the low-level writer is not public API: without it this fixture is skipped)
+                print("WARNING C18: TRR fixture with forces could not be written (%s: %s); fixture skipped" % (type(e).__name__, str(e)[:80]))
+                ctx.assume("trrforces fixture skipped: TRRTrajectoryFile._write(forces=) not usable")
+                SKIPPED.add(fmt)
+            continue
         _traj(natoms, ctx.seed).save(p)
         if fmt == "dcdhdr":
             with open(p, "r+b") as fh:
@@ -338,8 +361,9 @@ def run(ctx):
     quick = ctx.quick
     d1 = 3 if quick else 4
     d2 = 2 if quick else 3
-    one = ["%s/1/%s" % (f, a) for f in FORMATS for a in ("all", "sub")]
-    two = ["%s/2/all" % f for f in FORMATS if f not in NO_SEEK]
+    fmts = [f for f in FORMATS if f in fx]
+    one = ["%s/1/%s" % (f, a) for f in fmts for a in ("all", "sub")]
+    two = ["%s/2/all" % f for f in fmts if f not in NO_SEEK]
     s1 = explore.all_histories(ctx, Spec(fx, fulls, one), d1)
     s2 = explore.all_histories(ctx, Spec(fx, fulls, two), d2)
     b1 = explore.bfs_closure(ctx, Spec(fx, fulls, one if quick else one + two), max_depth=None)
